@@ -39,16 +39,32 @@ def _tables():
 NAMES, OPS = _tables()
 
 
-def tok_bytes(t):
+NUMSTYLES = 5
+
+
+def num_bytes(n, style=0):
+    """the same integer in the spellings PDF allows for a number: 7, 7.0, +7, 7., 007"""
+    if style == 1:
+        return b"%d.0" % n
+    if style == 2:
+        return b"+%d" % n if n >= 0 else b"%d" % n
+    if style == 3:
+        return b"%d." % n
+    if style == 4:
+        return (b"-" if n < 0 else b"") + b"%03d" % abs(n)
+    return b"%d" % n
+
+
+def tok_bytes(t, style=0):
     k = t["t"]
     if k == "num":
-        return b"%d" % t["n"]
+        return num_bytes(t["n"], style)
     if k == "str":
         return ser_string(bytes(t["s"]))
     if k == "name":
         return b"/" + NAMES[t["s"][0] - 1].encode()
     if k == "arr":
-        return b"[" + b" ".join(tok_bytes(x) for x in t["a"]) + b"]"
+        return b"[" + b" ".join(tok_bytes(x, style) for x in t["a"]) + b"]"
     if k == "op":
         return OPS[t["s"][0] - 1].encode()
     raise MachineryError("bad token %r" % (t,))
@@ -68,8 +84,8 @@ def lex_tokens(prog):
     return out
 
 
-def prog_bytes(prog):
-    return b" ".join(tok_bytes(t) for t in prog)
+def prog_bytes(prog, style=0):
+    return b" ".join(tok_bytes(t, style) for t in prog)
 
 
 def op_names(prog):
@@ -93,7 +109,7 @@ def fonts():
     return f1, f2
 
 
-def build_doc(progs, forms, mediabox=(0, 0, 612, 792), split=None):
+def build_doc(progs, forms, mediabox=(0, 0, 612, 792), split=None, numstyle=None):
     """progs: list of token programs; forms: {name: {"m": [...], "body": tokens}}; split: optional function
     token program -> list of byte parts (Contents array; the division may only fall between lexical tokens)."""
     f1, f2 = fonts()
@@ -125,8 +141,9 @@ def build_doc(progs, forms, mediabox=(0, 0, 612, 792), split=None):
           "CsLab": [Name("Lab"), {"WhitePoint": [1, 1, 1]}]}
     res = {"Font": fres, "XObject": xo, "ColorSpace": cs}
     kids = []
-    for p in progs:
-        body = prog_bytes(p)
+    for i, p in enumerate(progs):
+        # numstyle: program index -> spelling of its numeric operands (same values, so the same expectation)
+        body = prog_bytes(p, numstyle(i) if numstyle else 0)
         parts = split(p) if split else [body]
         refs = []
         for part in parts:
